@@ -1,4 +1,5 @@
 import OcppModel.WsAdmit
+import OcppModel.WsServer
 
 /-! Line-protocol drivers for the websocket suites; mirror go/cmd/harness/ws*.go -/
 namespace Ocpp.Drv
@@ -55,5 +56,51 @@ def stepWsAdmit (f : List String) : String :=
       let o := admission cfg hs
       s!"{showOutcome o} new={newClientCalls o} msg={newClientCalls o}"
   | _ => "bad-op"
+
+end Ocpp.Drv
+
+namespace Ocpp.Drv
+open Ocpp.WsServer
+
+def sortStrs (l : List String) : List String := (l.toArray.qsort (· < ·)).toList
+
+def wsEvs (l : List Obs) : String :=
+  let p := l.filterMap (fun o => match o with
+    | .newCb id => some s!"new:{id}"
+    | .discCb id => some s!"disc:{id}"
+    | .msgCb id d => some s!"msg:{id}:{d}"
+    | _ => none)
+  if p.isEmpty then "-" else " ".intercalate p
+
+def stepWsSrv (s : WsServer.St) (f : List String) : WsServer.St × String :=
+  let go (e : WsServer.Ev) : WsServer.St × String :=
+    let (s', obs) := WsServer.step s e
+    let head := match e, obs with
+      | .connect _ _, .admitted :: _ => "admitted"
+      | .connect _ _, .refused c :: _ => s!"close:{c}"
+      | .connect _ _, _ => "dial-error"
+      | .stopConn _, .ok :: .closeSeen _ c :: _ => s!"ok close:{c}"
+      | .stopConn _, _ => "error"
+      | .swrite _ _, .ok :: _ => "ok delivered=true"
+      | .swrite _ _, _ => "error"
+      | .list, [.live ids] => "live=" ++ ",".intercalate (sortStrs ids)
+      | .stop, _ => "stopped"
+      | _, _ => "ok"
+    match e with
+    | .stop =>
+      let p := sortStrs (obs.filterMap (fun o => match o with | .discCb id => some s!"disc:{id}" | _ => none))
+      (s', "stopped " ++ (if p.isEmpty then "-" else " ".intercalate p))
+    | _ => (s', head ++ " " ++ wsEvs obs)
+  match f with
+  | ["reset"] => ({}, "ok")
+  | ["connect", k, id] => go (.connect k id)
+  | ["close", k] => if (WsServer.findK s k).isNone then (s, "no-such-client") else go (.close k)
+  | ["drop", k] => if (WsServer.findK s k).isNone then (s, "no-such-client") else go (.drop k)
+  | ["stopconn", id] => go (.stopConn id)
+  | ["swrite", id, n] => go (.swrite id n)
+  | ["cwrite", k, n] => if (WsServer.findK s k).isNone then (s, "no-such-client") else go (.cwrite k n)
+  | ["list"] => go .list
+  | ["stop"] => go .stop
+  | _ => (s, "bad-op")
 
 end Ocpp.Drv
